@@ -1082,6 +1082,16 @@ func analysePairedCalls(as AnalysisSpec, progs []*Program, cs *Contracts, funcs 
 				switch ev.What {
 				case open:
 					seenOpen = true
+					// a failed open (error result constrained non-nil on this path) needs no close
+					if as.Args["open_err_result"] != "" {
+						ri, _ := strconv.Atoi(as.Args["open_err_result"])
+						if ri < len(ev.Rets) && len(ev.Rets[ri].L) == 1 {
+							q := &Query{Lines: pathLines(pe), Goal: not(eq(ev.Rets[ri].L[0], "0"))}
+							if sr := Solve(work, fmt.Sprintf("%s.paired.%d", key, pe.S.PathID), fr.Engine.assemble(q, true), timeout, ""); sr.Result == "unsat" {
+								continue
+							}
+						}
+					}
 					pending = append(pending, ev.Args[ai].L[0])
 				case cls:
 					for i, p := range pending {
